@@ -138,6 +138,8 @@ static void phase(uint32_t) {
   }
   checkState();
   checkQueueIsFull(pool(), g_size);
+  // ~ResourcePool's documented precondition (it would block forever otherwise); its violation was reported above
+  if (pool().pool_.n_ != g_size) return;
   pool().~Pool();
   checkAllDestroyedOnce(g_size);
 }
